@@ -159,6 +159,11 @@ func buildList(specs []cueSpec) *builtList {
 		}
 		if i%2 == 0 {
 			it.Style = b.style
+			if i%4 == 2 {
+				// what a merge of two documents leaves: a cue whose style is another object than the one the list
+				// declares under the same identifier - the cue's own reference is the one every piece must keep
+				it.Style = &astisub.Style{ID: "st", InlineStyle: &astisub.StyleAttributes{SRTItalics: true}}
+			}
 			it.InlineStyle = &astisub.StyleAttributes{WebVTTAlign: "left"}
 			if i%4 == 0 {
 				// the Effect column of an SSA event
@@ -171,6 +176,9 @@ func buildList(specs []cueSpec) *builtList {
 		}
 		if i%3 == 0 {
 			it.Region = b.reg
+			if i%6 == 3 {
+				it.Region = &astisub.Region{ID: "rg", InlineStyle: &astisub.StyleAttributes{WebVTTLines: 5}}
+			}
 			it.Comments = []string{fmt.Sprintf("c%d", i)}
 		}
 		b.sub.Items = append(b.sub.Items, it)
